@@ -353,7 +353,8 @@ FAVOURABLE = {"echo": "t", "answers": "yes", "wipe": "t", "unlock": "t", "newpin
               "mode2": "signer", "keys": "t", "retry": "valid"}
 
 
-def scenario_from_model(cfg, e, rng, boundary=False, member=None, favourable=False, shapes=None):
+def scenario_from_model(cfg, e, rng, boundary=False, member=None, favourable=False, shapes=None,
+                        hist=None):
     """Concretise one behaviour of GenAdmin (cfg + lazily chosen env). Dimensions the behaviour never
     looked at ("?") get seeded random members of their domain - or, for the PIN-decisive behaviours
     (`favourable`), the value that lets the command go on, so that a PIN the command should have
@@ -361,6 +362,15 @@ def scenario_from_model(cfg, e, rng, boundary=False, member=None, favourable=Fal
     `shapes`: how the device words its wrong / negative answers (see deviation_shapes)."""
     e = dict(e)
     shapes = dict(shapes or {})
+    link = None
+    if e.get("link", "?") != "?":
+        # the behaviour ends with the exchange that failed: its class, and which one of that class
+        cls = hist[-1]
+        spread = {"sendseed": 32, "onbpin": 2, "sendnewpin": 2, "getkeys": 6}.get(e["linkat"], 1)
+        link = {"kind": e["link"], "cls": cls, "nth": hist[:-1].count(cls) + rng.randrange(spread),
+                "how": rng.choice(["read", "write"])}
+        if favourable and cfg["op"] == "onboard" and e["onb"] == "?":
+            e["onb"] = rng.choice(["no", "yes"])     # what the device really is, not yet asked
     if e["onb"] in ("g:yes", "g:no"):
         # is_onboarded() answers garbage; the device's ground truth is what follows the colon
         shapes.setdefault("onb", rng.choice(ONB_SHAPES))
@@ -395,7 +405,7 @@ def scenario_from_model(cfg, e, rng, boundary=False, member=None, favourable=Fal
         echo=_pick(e["echo"], ["t", "f"], rng), answers=answers,
         wipe=_pick(e["wipe"], ["t"], rng), unlock=_pick(e["unlock"], ["t", "f"], rng),
         newpin=_pick(e["newpin"], ["t", "f"], rng), mode2=_pick(e["mode2"], MODES, rng),
-        keys=_pick(e["keys"], ["t", "f"], rng), keys_fail_at=0, rng=rng, shapes=shapes, pre=pre)
+        keys=_pick(e["keys"], ["t", "f"], rng), keys_fail_at=0, rng=rng, shapes=shapes, pre=pre, link=link)
     sc.desc["pinc"] = pinc
     return sc
 
@@ -422,6 +432,17 @@ def deviation_shapes(b):
     return []
 
 
+def clean_prefix(b):
+    """Everything the behaviour looked at before its last step was favourable (single deviation)."""
+    cfg, e = b["cfg"], b["env"]
+    for k, v in FAVOURABLE.items():
+        if e[k] not in ("?", v) and not (k == "answers" and e[k] == "oy"):
+            return False
+    want_onb = "no" if cfg["op"] == "onboard" else "yes"
+    return (e["onb"] in ("?", want_onb) and e["mode"] in ("?", "boot", "signer")
+            and e["pinc"] in ("?", "ok") and e["pre"] in ("?", "absent"))
+
+
 def pin_decisive(b):
     """A behaviour of the model in which the PIN content is the only deviation: the PIN was looked at
     and either everything went through, or the command stopped because of the PIN (rejected option
@@ -434,7 +455,7 @@ def pin_decisive(b):
 
 def build(op, plat, any_pin, no_unlock, src, pins, outfile, mode, onb, echo, answers, wipe, unlock,
           newpin, mode2, keys, rng, keys_fail_at=None, upin=None, strict=False, no_exec=False,
-          devseed=None, cli=False, shapes=None, pre="absent"):
+          devseed=None, cli=False, shapes=None, pre="absent", link=None):
     """The concrete environment of one run (all fields are plain data: the replay file is this).
     `shapes`: {echo, onb, wipe, unlock, unlock_byte, newpin} -> how the device words that answer."""
     shapes = shapes or {}
@@ -454,7 +475,7 @@ def build(op, plat, any_pin, no_unlock, src, pins, outfile, mode, onb, echo, ans
                 newpin_how=shapes.get("newpin") or rng.choice(NEWPIN_SHAPES[plat]),
                 yes=rng.choice(YES), no=rng.choice(NO), other=rng.choice(OTHER),
                 verbose=rng.random() < 0.3, cli=bool(cli),
-                pre=pre, pre_devseed=rng.randrange(1 << 30))
+                pre=pre, pre_devseed=rng.randrange(1 << 30), link=link)
     return Scenario(desc=desc)
 
 
@@ -605,6 +626,7 @@ def run(sc, scratch, tag, prev_seed=None, out_path=None):
         if d["op"] == "onboard" and dev.received_seed is not None:
             return operator.typed[-1] if operator.typed else dev.pin.decode("utf-8", "surrogateescape")
         return None
+    install_link_fault(world, d.get("link"))
     operator = Operator(world, lines, prompt_pins, recall)
     rnd = Randomness(world)
     if out_path is None and d["outfile"]:
@@ -721,6 +743,44 @@ def _ev(cls, truth, ans="na", ok="na", i=0, b=0, data=()):
             "ans": ans, "ok": ok, "i": i, "b": b, "data": list(data)}
 
 
+def apdu_class(apdu, mode_byte):
+    """Event class of an APDU (the device's mode disambiguates 0x02: echo in the UI, sign in the signer)."""
+    if len(apdu) < 2:
+        return "other"
+    if apdu[0] == 0xE0:
+        return "admin"
+    if apdu[0] != 0x80:
+        return "other"
+    cmd = apdu[1]
+    if cmd == 0x02:
+        return "echo" if mode_name(mode_byte) == "boot" else "cmd02"
+    return {0x43: "get_mode", 0x06: "is_onboard", 0xA4: "echo", 0x44: "seed_byte", 0x41: "pin_byte",
+            0x07: "wipe", 0xA0: "sgx_onboard", 0xFE: "unlock", 0xA3: "unlock", 0x08: "change_pin",
+            0xA5: "change_pin", 0xFF: "exit", 0xFA: "exit", 0x04: "get_pubkey"}.get(cmd, "cmd%02x" % cmd)
+
+
+LINK_KINDS = ("lost", "late", "err")
+
+
+def install_link_fault(world, link):
+    """`link` = {kind: lost | late | err, cls, nth, how}: the nth exchange of class `cls` does not get
+    its answer in time - lost for good, or arriving late and staying queued on the open handle
+    (World.late_answers) - or fails with a read / write error."""
+    if not link:
+        return
+    world.late_answers = link["kind"] == "late"
+    seen = {}
+
+    def hook(w, apdu, idx):
+        c = apdu_class(apdu, w.device.mode)
+        n = seen.get(c, 0)
+        seen[c] = n + 1
+        if c == link["cls"] and n == link["nth"]:
+            return ("timeout",) if link["kind"] in ("lost", "late") else (link.get("how", "read"),)
+        return None
+    world.fault_hook = hook
+
+
 def project(world):
     """world.log -> events of AdminProps."""
     evs = []
@@ -785,6 +845,9 @@ def project(world):
             evs.append(_ev("get_pubkey", t, ans=decode_path(apdu[2:]), ok=okf))
         else:
             evs.append(_ev("cmd%02x" % cmd, t, ok=okf))
+        if e.get("fault") in ("timeout", "read", "write", "exc"):
+            evs[-1]["ok"] = "x"          # the link failed: the host got no answer to this exchange
+            evs[-1]["ans"] = "na"
     return evs
 
 
